@@ -16,7 +16,7 @@ import keys_c17 as K
 CONFIGS = [('asan', 'file'), ('asan', 'db'), ('botan', 'file'), ('botan', 'db')]
 NAMES = ['openssl/file', 'openssl/db', 'botan/file', 'botan/db']
 SO_PIN = b'c20-so-pin'; USER_PIN = b'c20-user-pin'
-GOLDEN_KINDS = ['aes128', 'aes192', 'aes256', 'des3', 'des2', 'generic32', 'generic64', 'rsa1024:pub', 'rsa1024:priv', 'rsa2048:pub', 'rsa2048:priv', 'ec_p256:pub', 'ec_p256:priv',
+GOLDEN_KINDS = ['aes128', 'aes192', 'aes256', 'des3', 'des2', 'generic32', 'generic64', 'generic1', 'rsa1024:pub', 'rsa1024:priv', 'rsa2048:pub', 'rsa2048:priv', 'ec_p256:pub', 'ec_p256:priv',
                 'ec_p256b:pub', 'ec_p256b:priv', 'ec_p384:pub', 'ec_p384:priv', 'ec_p384b:pub', 'ec_p521:pub', 'ec_p521:priv', 'ec_p521b:pub', 'ed25519:pub', 'ed25519:priv', 'dsa1024:pub', 'dsa1024:priv',
                 'dh1024:pub', 'dh1024:priv', 'dh1024b:pub', 'x509', 'data']
 
@@ -54,10 +54,10 @@ class Pos:
 
 class Quad:
     """four executors driven in lock-step"""
-    def __init__(s, env, d):
-        s.env = env; s.ck = env['ck']; s.x = []; s.d = d
+    def __init__(s, env, d, golden=None):
+        s.env = env; s.ck = env['ck']; s.x = []; s.d = d; golden = golden or env['golden']
         for i, (cfg, be) in enumerate(CONFIGS):
-            di = os.path.join(d, 'c%d' % i); os.makedirs(di); shutil.copytree(os.path.join(env['golden'][i], 'tokens'), os.path.join(di, 'tokens'))
+            di = os.path.join(d, 'c%d' % i); os.makedirs(di); shutil.copytree(os.path.join(golden[i], 'tokens'), os.path.join(di, 'tokens'))
             p = env['paths'][cfg]; x = Exec(p['exe'], p['lib'], mkconf(di, be), s.ck, env=dict(SAN_ENV), stderr=f'{di}/stderr.log', trace=f'{di}/trace.jsonl'); x.timeout = 120; s.x.append(x)
         s.ncalls = 0
     def call(self, fn, **kw):
@@ -483,53 +483,268 @@ class Prog(Prog):
             if len(set(labs)) > 1: s.note('C_GetAttributeValue', a, labs, {'buf': bufs[j], 'object': o['fam']})
         s.step('C_GetObjectSize', 'object-size', s=s.S, o=o['pos'])
 
+class Prog(Prog):
+    # ---------------------------------------------------------------- programs that START on an empty token
+    def tokeninfo(s, what='token-info'):
+        rs = s.q.call('C_GetTokenInfo', slot=Pos(s.slots)); s.steps += 1; s.part.count('comparisons'); s.part.case(('C_GetTokenInfo', what))
+        labs = ['%s/flags=%x' % (r['rvname'], r.get('flags', 0)) for r in rs]; s.log.append(('C_GetTokenInfo', what, labs[0] if len(set(labs)) == 1 else labs))
+        if len(set(labs)) > 1: s.note('C_GetTokenInfo', what, labs, {}); raise Disagree()
+    def e_find(s):
+        r = s.rnd; c = r.randrange(5); s.unit = 'empty-token find %d' % c
+        t = [[], [('CKA_LABEL', b'no-such-object')], [('CKA_CLASS', r.choice(['CKO_SECRET_KEY', 'CKO_PRIVATE_KEY', 'CKO_DATA']))], [('CKA_TOKEN', True)], [('CKA_ID', b'x'), ('CKA_PRIVATE', False)]][c]; what = 'find-on-empty-token'
+        s.step('C_FindObjectsInit', what, s=s.S, tmpl=s.T(t), must_ok=True); s.step('C_FindObjects', what, cmp=('n',), s=s.S, max=16); s.step('C_FindObjectsFinal', what, s=s.S)
+        if r.random() < 0.5: s.tokeninfo('token-info-after-find')
+    def e_tokeninfo(s):
+        s.unit = 'empty-token info'; s.tokeninfo(); s.step('C_GetSessionInfo', 'session-info', s=s.S)
+        rs = s.step('C_OpenSession', 'open-ro-session', slot=Pos(s.slots), flags=4)
+        if rs[0]['rvname'] == 'CKR_OK': s.step('C_GetSessionInfo', 'session-info', s=Pos([r['h'] for r in rs])); s.step('C_CloseSession', 'close-session', s=Pos([r['h'] for r in rs]))
+    def e_setpin(s):
+        s.unit = 'empty-token setpin'; new = b'c20-user-pin-2'
+        s.step('C_SetPIN', 'set-pin:wrong-old', s=s.S, old=b'not-the-pin'.hex(), new=new.hex())
+        s.step('C_SetPIN', 'set-pin', s=s.S, old=USER_PIN.hex(), new=new.hex(), must_ok=True); s.tokeninfo('token-info-after-set-pin')
+        s.step('C_SetPIN', 'set-pin', s=s.S, old=new.hex(), new=USER_PIN.hex(), must_ok=True)
+    def e_relogin(s):
+        s.unit = 'empty-token relogin'
+        s.step('C_Logout', 'logout', s=s.S, must_ok=True); s.step('C_Login', 'login:wrong-pin', s=s.S, user=1, pin=b'wrong-pin'.hex()); s.tokeninfo('token-info-after-wrong-pin')
+        s.step('C_Login', 'login', s=s.S, user=1, pin=USER_PIN.hex(), must_ok=True)
+    def e_reinit(s):
+        """re-initialisation before any object exists: close everything, C_InitToken (wrong SO PIN, then right), set the user PIN up again"""
+        s.unit = 'empty-token reinit'; sl = Pos(s.slots)
+        s.step('C_CloseAllSessions', 'reinit', slot=sl, must_ok=True)
+        s.step('C_InitToken', 'init-token:wrong-so-pin', slot=sl, pin=b'wrong-so-pin'.hex(), label=b'c20'.hex())
+        s.step('C_InitToken', 'init-token', slot=sl, pin=SO_PIN.hex(), label=b'c20-again'.hex(), must_ok=True); s.tokeninfo('token-info-after-init-token')
+        rs = s.step('C_OpenSession', 'reinit', slot=sl, flags=6, must_ok=True); s.anchor = Pos([r['h'] for r in rs]); a = s.anchor
+        s.step('C_Login', 'login-so', s=a, user=0, pin=SO_PIN.hex(), must_ok=True); s.step('C_InitPIN', 'init-pin', s=a, pin=USER_PIN.hex(), must_ok=True); s.step('C_Logout', 'logout', s=a, must_ok=True)
+        s.step('C_Login', 'login', s=a, user=1, pin=USER_PIN.hex(), must_ok=True); s.tokeninfo('token-info-after-init-pin')
+        rs = s.step('C_OpenSession', 'reinit', slot=sl, flags=6, must_ok=True); s.S = Pos([r['h'] for r in rs])
+    def e_create_destroy(s):
+        """objects come and go, then the token is searched while empty again (destroy-all then search)"""
+        r = s.rnd; s.unit = 'empty-token create/destroy-all/search'; made = []
+        for _ in range(r.randrange(1, 4)):
+            kind = r.choice(['data', 'aes128', 'generic32', 'rsa1024:pub', 'x509']); tok = r.random() < 0.7
+            rs = s.step('C_CreateObject', 'create-on-empty-token:' + cls_of(fam(kind)), s=s.S, tmpl=s.T(K.template(kind, label='early-%d' % len(made), token=tok, private=r.random() < 0.5)), must_ok=True); made.append(Pos([x['h'] for x in rs]))
+        if r.random() < 0.5:
+            rs = s.step('C_GenerateKey', 'generate-on-empty-token', s=s.S, mech=s.M('CKM_AES_KEY_GEN'), tmpl=s.T([('CKA_TOKEN', r.random() < 0.7), ('CKA_VALUE_LEN', 16), ('CKA_LABEL', b'early-gen')]), must_ok=True); made.append(Pos([x['h'] for x in rs]))
+        s.step('C_FindObjectsInit', 'find-before-destroy-all', s=s.S, tmpl=[], must_ok=True); s.step('C_FindObjects', 'find-before-destroy-all', cmp=('n',), s=s.S, max=16); s.step('C_FindObjectsFinal', 'find-before-destroy-all', s=s.S)
+        for p in made: s.step('C_DestroyObject', 'destroy-all', s=s.S, o=p, must_ok=True)
+        s.step('C_FindObjectsInit', 'find-after-destroy-all', s=s.S, tmpl=[], must_ok=True); s.step('C_FindObjects', 'find-after-destroy-all', cmp=('n',), s=s.S, max=16); s.step('C_FindObjectsFinal', 'find-after-destroy-all', s=s.S)
+        s.tokeninfo('token-info-after-destroy-all')
+    def import_keys(s):
+        """the fixed key set, imported through the API as token objects (compared like any other step) - from here on the program is an ordinary one"""
+        s.unit = 'import of the fixed key set'
+        for kind in GOLDEN_KINDS:
+            rs = s.step('C_CreateObject', 'import:' + cls_of(fam(kind)), s=s.S, tmpl=s.T(K.template(kind, token=True, private=True)), must_ok=True)
+            s.objs.append({'pos': Pos([r['h'] for r in rs]), 'kind': kind, 'fam': fam(kind), 'alive': True, 'golden': True})
+    # ---------------------------------------------------------------- boundary sweep (deterministic): every parameter range at its edges
+    def sweep_cells(s):
+        ck = s.ck; C = []; add = lambda name, f: C.append((name, f)); G = lambda k: s.gold(k)['pos']; R = K.RAW
+        def roundtrip(mech, what, key, pt, shape='oneshot'):
+            ct = s.produce('E', mech, what, key, pt, shape); s.produce('De', mech, what, key, ct[0], 'oneshot')
+            if ct[0]: bad = ct[0][:-2] + '%02x' % (int(ct[0][-2:], 16) ^ 1); s.produce('De', mech, what + ':bitflipped-ciphertext', key, bad, 'oneshot')
+        # --- PSS: sLen in {0, hLen, max-1, max, max+1} per key size and hash, sign AND verify, cross-fed
+        for bits in (1024, 2048):
+            ml = bits // 8
+            for h in ('SHA_1', 'SHA224', 'SHA256', 'SHA384', 'SHA512'):
+                hm = 'CKM_' + h; hl = HLEN[hm]; mgf = {'SHA_1': 'CKG_MGF1_SHA1'}.get(h, 'CKG_MGF1_' + h); mx = ml - hl - 2
+                for m in ('CKM_RSA_PKCS_PSS', 'CKM_' + h.replace('SHA_1', 'SHA1') + '_RSA_PKCS_PSS'):
+                    for lab, sl in (('0', 0), ('hash-length', hl), ('max-1', mx - 1), ('max', mx), ('max+1', mx + 1)):
+                        if mx < hl and lab == 'hash-length': continue
+                        def f(bits=bits, hm=hm, hl=hl, mgf=mgf, m=m, lab=lab, sl=sl, h=h):
+                            if not s.has(m): return
+                            p = {'pss': {'hash': ck[hm], 'mgf': ck[mgf], 'slen': sl}}; what = f'{m}:slen={lab}' + ('' if m != 'CKM_RSA_PKCS_PSS' else ':' + h); pub = G('rsa%d:pub' % bits); priv = G('rsa%d:priv' % bits)
+                            data = '5a' * hl if m == 'CKM_RSA_PKCS_PSS' else '5a' * 20
+                            rs = s.step('C_VerifyInit', what, s=s.S, mech=s.M(m, p), key=pub)       # the verifying side on its own (whatever the signing side says)
+                            if rs[0]['rvname'] == 'CKR_OK': s.step('C_Verify', what + ':bad-signature', s=s.S, data=data, sig='5a' * (bits // 8))
+                            sigs = s.produce('S', s.M(m, p), what, priv, data, 'oneshot', det=False); s.verify_all(s.M(m, p), what, pub, data, [sigs[0], sigs[2]])
+                        add(f'pss {m} {h} {bits} slen={lab}', f)
+        # --- RSA data-length boundaries (encryption cross-decrypted, signatures compared)
+        for bits in (1024, 2048):
+            ml = bits // 8
+            for m, p, lens in (('CKM_RSA_PKCS', None, (0, 1, ml - 12, ml - 11, ml - 10)), ('CKM_RSA_PKCS_OAEP', {'oaep': {'hash': ck.CKM_SHA_1, 'mgf': ck.CKG_MGF1_SHA1, 'source': 1}}, (0, 1, ml - 43, ml - 42, ml - 41)), ('CKM_RSA_X_509', None, (1, ml - 1, ml, ml + 1))):
+                for n in lens:
+                    def f(bits=bits, m=m, p=p, n=n, ml=ml):
+                        what = m + ':' + ('empty-input' if n == 0 else 'max-length' if n in (ml - 11, ml - 42, ml) else 'max-length+1' if n in (ml - 10, ml - 41, ml + 1) else 'below-max'); pt = ('00' + '5a' * (n - 1)) if n else ''
+                        cts = s.produce('E', s.M(m, p), what.replace(':empty-input', ''), G('rsa%d:pub' % bits), pt, 'oneshot', det=(m == 'CKM_RSA_X_509'))
+                        for i in (0, 2):
+                            back = s.produce('De', s.M(m, p), what.replace(':empty-input', ''), G('rsa%d:priv' % bits), cts[i], 'oneshot')
+                            if m != 'CKM_RSA_X_509' and back[0] != pt: s.note_cross('C_Decrypt', m, i, 'wrong-plaintext', {}); raise Disagree()
+                    add(f'rsa-enc {m} {bits} n={n}', f)
+            for m, lens in (('CKM_RSA_PKCS', (0, 1, ml - 12, ml - 11, ml - 10)), ('CKM_RSA_X_509', (1, ml - 1, ml, ml + 1))):
+                for n in lens:
+                    def f(bits=bits, m=m, n=n, ml=ml):
+                        what = m + ':' + ('max-length' if n in (ml - 11, ml) else 'max-length+1' if n in (ml - 10, ml + 1) else 'below-max'); data = ('00' + '5a' * (n - 1)) if n else ''
+                        sig = s.produce('S', s.M(m), what, G('rsa%d:priv' % bits), data, 'oneshot'); s.verify_all(s.M(m), what, G('rsa%d:pub' % bits), data, sig[:1])
+                    add(f'rsa-sign {m} {bits} n={n}', f)
+            for labn in (1, 16):      # OAEP label (source data): the library's refusal must agree, too
+                def f(bits=bits, labn=labn):
+                    p = {'oaep': {'hash': ck.CKM_SHA_1, 'mgf': ck.CKG_MGF1_SHA1, 'source': 1, 'data': '6c' * labn}}
+                    s.step('C_EncryptInit', 'CKM_RSA_PKCS_OAEP:label-present', s=s.S, mech=s.M('CKM_RSA_PKCS_OAEP', p), key=G('rsa%d:pub' % bits)); s.step('C_DecryptInit', 'CKM_RSA_PKCS_OAEP:label-present', s=s.S, mech=s.M('CKM_RSA_PKCS_OAEP', p), key=G('rsa%d:priv' % bits))
+                add(f'oaep label {bits} {labn}', f)
+            for hh, mg in (('CKM_SHA256', 'CKG_MGF1_SHA256'), ('CKM_SHA_1', 'CKG_MGF1_SHA256'), ('CKM_SHA512', 'CKG_MGF1_SHA512')):
+                def f(bits=bits, hh=hh, mg=mg):
+                    p = {'oaep': {'hash': ck[hh], 'mgf': ck[mg], 'source': 1}}; what = 'CKM_RSA_PKCS_OAEP:hash-other-than-sha1'
+                    rs = s.step('C_EncryptInit', what, s=s.S, mech=s.M('CKM_RSA_PKCS_OAEP', p), key=G('rsa%d:pub' % bits))
+                    if rs[0]['rvname'] == 'CKR_OK': s.step('C_Encrypt', what, s=s.S, data='5a' * 16, buf=512)
+                add(f'oaep hash {bits} {hh}', f)
+        # --- GCM: IV / AAD / tag / payload boundaries
+        for kk in ('aes128', 'aes256'):
+            for ivl in (1, 11, 12, 13, 16, 64, 127, 128, 129, 255, 256):
+                add(f'gcm iv {kk} {ivl}', lambda kk=kk, ivl=ivl: roundtrip(s.M('CKM_AES_GCM', {'gcm': {'iv': 'a1' * ivl, 'aad': 'b2' * 8, 'tagbits': 128}}), 'CKM_AES_GCM' + ('' if ivl == 12 else ':iv-above-128-bytes' if ivl > 128 else ':iv-not-96-bits'), G(kk), '5a' * 20))
+            for al in (0, 1, 15, 16, 17, 255, 4096):
+                add(f'gcm aad {kk} {al}', lambda kk=kk, al=al: roundtrip(s.M('CKM_AES_GCM', {'gcm': dict(iv='a1' * 12, tagbits=128, **({'aad': 'b2' * al} if al else {}))}), 'CKM_AES_GCM', G(kk), '5a' * 33))
+            for tb in (0, 8, 32, 64, 88, 96, 97, 104, 112, 120, 127, 128, 129, 136):
+                cls = ':tag-below-96-bits' if tb < 96 else ':tag-above-128-bits' if tb > 128 else ':tag-not-a-multiple-of-8' if tb % 8 else ''
+                add(f'gcm tag {kk} {tb}', lambda kk=kk, tb=tb, cls=cls: roundtrip(s.M('CKM_AES_GCM', {'gcm': {'iv': 'a1' * 12, 'aad': 'b2' * 4, 'tagbits': tb}}), 'CKM_AES_GCM' + cls, G(kk), '5a' * 20))
+            for n in (0, 1, 15, 16, 17, 4096):
+                add(f'gcm payload {kk} {n}', lambda kk=kk, n=n: roundtrip(s.M('CKM_AES_GCM', {'gcm': {'iv': 'a1' * 12, 'tagbits': 128}}), 'CKM_AES_GCM', G(kk), '5a' * n, 'multi' if n > 16 else 'oneshot'))
+        # --- CTR: counter widths, with a counter block that wraps inside the message and one that does not
+        for bits_ in (0, 1, 2, 7, 8, 9, 16, 31, 32, 33, 64, 127, 128, 129):
+            for cb, wraps in (('00' * 16, False), ('ff' * 16, True)):
+                def f(bits_=bits_, cb=cb, wraps=wraps):
+                    what = 'CKM_AES_CTR:' + ('width-0' if bits_ == 0 else 'width-above-128' if bits_ > 128 else 'width-byte-multiple' if bits_ % 8 == 0 else 'width-not-byte-multiple') + (':counter-wraps' if wraps else '')
+                    roundtrip(s.M('CKM_AES_CTR', {'ctr': {'bits': bits_, 'cb': cb}}), what, G('aes128'), '5a' * 70, 'oneshot'); roundtrip(s.M('CKM_AES_CTR', {'ctr': {'bits': bits_, 'cb': cb}}), what, G('aes256'), '5a' * 70, 'multi')
+                add(f'ctr {bits_} wraps={wraps}', f)
+        # --- block modes: payload lengths around the block size
+        for m, kk, bs in (('CKM_AES_CBC', 'aes128', 16), ('CKM_AES_CBC_PAD', 'aes192', 16), ('CKM_DES3_CBC', 'des3', 8), ('CKM_DES3_CBC_PAD', 'des2', 8)):
+            for n in (1, bs - 1, bs, bs + 1, 2 * bs, 4096):      # (the empty input is a known difference, covered by the random programs)
+                def f(m=m, kk=kk, bs=bs, n=n):
+                    what = m + ('' if (n % bs == 0 or m.endswith('_PAD')) else ':unaligned-input'); roundtrip(s.M(m, {'hex': '33' * bs}), what, G(kk), '5a' * n, 'multi' if n > bs else 'oneshot')
+                add(f'block {m} {n}', f)
+        # --- MACs: key sizes (HMAC minimum!) and payload lengths
+        for m in ('CKM_MD5_HMAC', 'CKM_SHA_1_HMAC', 'CKM_SHA224_HMAC', 'CKM_SHA256_HMAC', 'CKM_SHA384_HMAC', 'CKM_SHA512_HMAC'):
+            for kk in ('generic32', 'generic64'):
+                def f(m=m, kk=kk):
+                    what = m; sig = s.produce('S', s.M(m), what, G(kk), '5a' * 65, 'oneshot'); s.verify_all(s.M(m), what, G(kk), '5a' * 65, sig[:1])
+                    for cut in (1, len(sig[0]) // 2 - 1):      # truncated MACs: the length check must agree
+                        s.step('C_VerifyInit', what, s=s.S, mech=s.M(m), key=G(kk), must_ok=True); s.step('C_Verify', what + ':truncated-mac', s=s.S, data='5a' * 65, sig=sig[0][:2 * cut])
+                add(f'hmac {m} {kk}', f)
+        for m, kk, bs in (('CKM_AES_CMAC', 'aes128', 16), ('CKM_AES_CMAC', 'aes256', 16), ('CKM_DES3_CMAC', 'des3', 8)):
+            for n in (0, 1, bs - 1, bs, bs + 1, 2 * bs):
+                def f(m=m, kk=kk, n=n):
+                    sig = s.produce('S', s.M(m), m, G(kk), '5a' * n, 'multi' if n > 1 else 'oneshot'); s.verify_all(s.M(m), m, G(kk), '5a' * n, sig[:1])
+                add(f'cmac {m} {kk} {n}', f)
+        # --- digests around the padding boundaries
+        for m in HASHES:
+            bl = 128 if m in ('CKM_SHA384', 'CKM_SHA512') else 64; pad = 17 if bl == 128 else 9
+            for n in (0, bl - pad, bl - pad + 1, bl - 1, bl, bl + 1, 2 * bl - pad, 2 * bl - pad + 1):
+                add(f'digest {m} {n}', lambda m=m, n=n: (s.produce('D', s.M(m), m, None, '5a' * n, 'oneshot'), s.produce('D', s.M(m), m, None, '5a' * n, 'multi')))
+        # --- ECDH: point encodings, shared data, KDF; DH: public value encodings
+        for cv in ('ec_p256', 'ec_p384', 'ec_p521'):
+            for raw in (False, True):
+                for shared in (None, '01', '5a' * 32):
+                    for kdf in (1, 2):
+                        if kdf == 2 and shared is None and raw: continue
+                        def f(cv=cv, raw=raw, shared=shared, kdf=kdf):
+                            pt = R[cv + 'b']['CKA_EC_POINT']; pt = (pt[4:] if len(pt) < 260 else pt[6:]) if raw else pt
+                            what = 'CKM_ECDH1_DERIVE' + (':raw-point' if raw else '') + (':shared-data' if shared else '') + (':kdf-sha1' if kdf == 2 else '')
+                            p = {'ecdh1': dict(kdf=kdf, public=pt, **({'shared': shared} if shared else {}))}
+                            for vl in (None, 16, {'ec_p256': 32, 'ec_p384': 48, 'ec_p521': 66}[cv], {'ec_p256': 33, 'ec_p384': 49, 'ec_p521': 67}[cv]):
+                                t = s.SECRET_T + [('CKA_KEY_TYPE', 'CKK_GENERIC_SECRET')] + ([('CKA_VALUE_LEN', vl)] if vl is not None else [])
+                                rs = s.step('C_DeriveKey', what + ('' if vl is None or vl <= 66 - 18 * (cv != 'ec_p521') - 16 * (cv == 'ec_p256') else ':value-len-above-field-size'), s=s.S, mech=s.M('CKM_ECDH1_DERIVE', p), key=G(cv + ':priv'), tmpl=s.T(t))
+                                if rs[0]['rvname'] == 'CKR_OK': o = s.add(rs, 'generic32'); s.read_attrs(o['pos'], 'generic', ['CKA_VALUE', 'CKA_VALUE_LEN'], producer='C_DeriveKey')
+                        add(f'ecdh {cv} raw={raw} shared={shared is not None} kdf={kdf}', f)
+        y = R['dh1024b']['CKA_VALUE']
+        for lab, pv in (('', y), (':leading-zero', '00' + y), (':truncated', y[:-2]), (':one', '01'), (':zero', '00'), (':equals-p', R['dh1024']['CKA_PRIME']), (':empty', '')):
+            def f(lab=lab, pv=pv):
+                for vl in (None, 16, 128, 129):
+                    t = s.SECRET_T + [('CKA_KEY_TYPE', 'CKK_GENERIC_SECRET')] + ([('CKA_VALUE_LEN', vl)] if vl is not None else [])
+                    rs = s.step('C_DeriveKey', 'CKM_DH_PKCS_DERIVE' + lab + (':value-len-above-prime-size' if vl == 129 else ''), s=s.S, mech=s.M('CKM_DH_PKCS_DERIVE', {'hex': pv}), key=G('dh1024:priv'), tmpl=s.T(t))
+                    if rs[0]['rvname'] == 'CKR_OK': o = s.add(rs, 'generic32'); s.read_attrs(o['pos'], 'generic', ['CKA_VALUE', 'CKA_VALUE_LEN'], producer='C_DeriveKey')
+            add(f'dh public{lab}', f)
+        # --- key wrapping: payload sizes around the 8-byte granularity of RFC 3394 / 5649
+        for wm in ('CKM_AES_KEY_WRAP', 'CKM_AES_KEY_WRAP_PAD'):
+            for tk in ('generic1', 'des2', 'aes192', 'generic32', 'generic64'):
+                def f(wm=wm, tk=tk):
+                    n = len(K.SECRET[tk][1]); what = wm + ('' if (n % 8 == 0 and n >= 16) or wm.endswith('_PAD') else ':payload-not-a-multiple-of-8' if n % 8 else ':payload-below-16')
+                    rs = s.step('C_WrapKey', what, cmp=('out',), s=s.S, mech=s.M(wm), wkey=G('aes256'), key=G(tk), buf=512, must_ok=True)
+                    t = s.SECRET_T + [('CKA_KEY_TYPE', {'generic1': 'CKK_GENERIC_SECRET', 'des2': 'CKK_DES2', 'aes192': 'CKK_AES', 'generic32': 'CKK_GENERIC_SECRET', 'generic64': 'CKK_GENERIC_SECRET'}[tk])]
+                    ru = s.step('C_UnwrapKey', what, s=s.S, mech=s.M(wm), ukey=G('aes256'), wrapped=s.outs(rs)[0], tmpl=s.T(t), must_ok=True); o = s.add(ru, tk); s.read_attrs(o['pos'], o['fam'], ['CKA_VALUE', 'CKA_VALUE_LEN', 'CKA_KEY_TYPE'], producer='C_UnwrapKey')
+                add(f'wrap {wm} {tk}', f)
+        return C
+
 UNITS = [('u_create', 5), ('u_copy', 4), ('u_set', 4), ('u_destroy', 2), ('u_find', 3), ('u_getattr', 3), ('u_digest', 2), ('u_sym', 6), ('u_mac', 3), ('u_rsa_sign', 3), ('u_rsa_pss', 2), ('u_rsa_enc', 2),
          ('u_ecdsa', 2), ('u_eddsa', 1.5), ('u_dsa', 1.5), ('u_wrap', 5), ('u_derive', 4), ('u_keygen', 1.5), ('u_random', 0.5)]
 
-def build_golden(env, i, d):
+def build_golden(env, i, d, empty=False):
     cfg, be = CONFIGS[i]; p = env['paths'][cfg]; ck = env['ck']
     x = Exec(p['exe'], p['lib'], mkconf(d, be), ck, env=dict(SAN_ENV), stderr=f'{d}/stderr.log', trace=None)
     def ok(r): assert r['rv'] == 0, r; return r
     ok(x.call('C_Initialize')); slot = x.call('C_GetSlotList', count=8)['slots'][-1]; ok(x.call('C_InitToken', slot=slot, pin=SO_PIN.hex(), label=b'c20'.hex()))
     slot = [sl for sl in x.call('C_GetSlotList', count=8)['slots'] if x.call('C_GetTokenInfo', slot=sl)['flags'] & ck.CKF_TOKEN_INITIALIZED][0]
     s = ok(x.call('C_OpenSession', slot=slot))['h']; ok(x.call('C_Login', s=s, user=0, pin=SO_PIN.hex())); ok(x.call('C_InitPIN', s=s, pin=USER_PIN.hex())); ok(x.call('C_Logout', s=s)); ok(x.call('C_Login', s=s, user=1, pin=USER_PIN.hex()))
-    for kind in GOLDEN_KINDS: ok(x.call('C_CreateObject', s=s, tmpl=x.T(K.resolve(ck, K.template(kind, token=True, private=True)))))
+    for kind in ([] if empty else GOLDEN_KINDS): ok(x.call('C_CreateObject', s=s, tmpl=x.T(K.resolve(ck, K.template(kind, token=True, private=True)))))
     ml = x.call('C_GetMechanismList', slot=slot, count=300)['mechs']; info = {}
     for m in ml: r = x.call('C_GetMechanismInfo', slot=slot, m=m); info[ck.MECH.get(m, hex(m))] = (r['min'], r['max'], r['flags'])
     ok(x.call('C_Finalize')); x.close(); os.unlink(f'{d}/stderr.log')
     return info
 
-def run_program(env, seed, part):
-    d = os.path.join(env['scratch'], 'p%d' % seed)
+EMPTY_UNITS = [('e_find', 4), ('e_tokeninfo', 2), ('e_setpin', 1.5), ('e_relogin', 1.5), ('e_reinit', 1.5), ('e_create_destroy', 3)]
+def run_program(env, seed, part, sweep=None):
+    """one program on the four configurations.  Three shapes: ordinary (the fixed key set is already on the token), empty-start (a
+    quarter of the programs: the token holds NOTHING at first - searches, token info, PIN operations, re-initialisation, create/destroy-all/search -
+    then the key set is imported through the API and the program goes on as an ordinary one), and sweep=(lo, hi): cells lo..hi of the
+    deterministic parameter-boundary sweep"""
+    rnd0 = random.Random(seed ^ 0x5eed); empty = sweep is None and rnd0.random() < 0.25
+    d = os.path.join(env['scratch'], 'p%d%s' % (seed, '-s%d' % sweep[0] if sweep else ''))
     for attempt in (0, 1):
         shutil.rmtree(d, ignore_errors=True); os.makedirs(d)
-        try: q = Quad(env, d); break
+        try: q = Quad(env, d, golden=env['golden_empty'] if empty else env['golden']); break
         except OSError as e:      # the executor / library is being re-linked by a concurrent build: wait for the build lock, try once more
             import subprocess; subprocess.run([sys.executable, f'{VERIF}/tools/build.py', 'asan', 'botan'], stdout=subprocess.DEVNULL, stderr=subprocess.DEVNULL)
             if attempt == 1: part.inconc('executor could not be started: %r' % (e,)); return
     P = Prog(env, seed, part); P.q = q; ck = env['ck']
+    def fresh_session():
+        rs = q.call('C_OpenSession', slot=Pos(P.slots), flags=6); P.S = Pos([r['h'] for r in rs])
     try:
         for r in q.call('C_Initialize'): assert r['rv'] == 0, r
         slots = []
         for x in q.x: slots.append([sl for sl in x.call('C_GetSlotList', count=8)['slots'] if x.call('C_GetTokenInfo', slot=sl)['flags'] & ck.CKF_TOKEN_INITIALIZED][0])
         P.slots = slots
-        anchor = Pos([r['h'] for r in q.call('C_OpenSession', slot=Pos(slots), flags=6)])
-        for r in q.call('C_Login', s=anchor, user=1, pin=USER_PIN.hex()): assert r['rv'] == 0, r
-        # golden objects by label
-        hs = [x.findall(anchor.hs[i])[1] for i, x in enumerate(q.x)]; bylabel = [{} for _ in q.x]
-        for i, x in enumerate(q.x):
-            for h in hs[i]: bylabel[i][x.getattrs(anchor.hs[i], h, ['CKA_LABEL'])[1]['CKA_LABEL'].decode()] = h
-        for kind in GOLDEN_KINDS: P.objs.append({'pos': Pos([bylabel[i].get(kind, 0) for i in range(4)]), 'kind': kind, 'fam': fam(kind), 'alive': True, 'golden': True})
-        assert all(all(o['pos'].hs) for o in P.objs), 'golden objects missing'
-        names = [u for u, _ in UNITS]; w = [x for _, x in UNITS]; units = 0
-        while P.steps < env['ncalls']:
-            P.S = Pos([r['h'] for r in q.call('C_OpenSession', slot=Pos(slots), flags=6)]); u = P.rnd.choices(names, w)[0]; n0 = P.steps
-            try: getattr(P, u)()
-            except Disagree: pass
-            q.call('C_CloseSession', s=P.S); units += 1; part.count('units'); part.count('unit:' + u)
-            if P.steps == n0 and units > 400: break
+        P.anchor = Pos([r['h'] for r in q.call('C_OpenSession', slot=Pos(slots), flags=6)])
+        for r in q.call('C_Login', s=P.anchor, user=1, pin=USER_PIN.hex()): assert r['rv'] == 0, r
+        if empty:
+            part.count('programs_starting_on_an_empty_token'); names = [u for u, _ in EMPTY_UNITS]; w = [x for _, x in EMPTY_UNITS]; done = set(); ok = True
+            for _ in range(P.rnd.randrange(4, 9)):
+                u = P.rnd.choices(names, w)[0]
+                if u == 'e_reinit' and u in done: continue
+                done.add(u); fresh_session(); part.count('units'); part.count('unit:' + u)
+                try: getattr(P, u)()
+                except Disagree:
+                    if u in ('e_setpin', 'e_relogin', 'e_reinit'): ok = False; break      # the login state / PINs may now differ: everything after would cascade
+                q.call('C_CloseSession', s=P.S)
+            if ok:
+                fresh_session(); n0 = P.steps
+                try: P.import_keys()
+                except Disagree: ok = False
+                P.steps = n0 + (P.steps - n0) // 8       # (the import counts little towards the length of the program)
+                q.call('C_CloseSession', s=P.S)
+            if not ok:
+                part.count('programs'); part.count('steps', P.steps); return
+        else:
+            # golden objects by label
+            hs = [x.findall(P.anchor.hs[i])[1] for i, x in enumerate(q.x)]; bylabel = [{} for _ in q.x]
+            for i, x in enumerate(q.x):
+                for h in hs[i]: bylabel[i][x.getattrs(P.anchor.hs[i], h, ['CKA_LABEL'])[1]['CKA_LABEL'].decode()] = h
+            for kind in GOLDEN_KINDS: P.objs.append({'pos': Pos([bylabel[i].get(kind, 0) for i in range(4)]), 'kind': kind, 'fam': fam(kind), 'alive': True, 'golden': True})
+            assert all(all(o['pos'].hs) for o in P.objs), 'golden objects missing'
+        if sweep:
+            cells = P.sweep_cells()[sweep[0]:sweep[1]]
+            for name, f in cells:
+                fresh_session(); P.unit = 'sweep: ' + name
+                try: f()
+                except Disagree: pass
+                q.call('C_CloseSession', s=P.S); part.count('sweep_cells')
+            part.count('sweep_programs')
+        else:
+            names = [u for u, _ in UNITS]; w = [x for _, x in UNITS]; units = 0
+            while P.steps < env['ncalls'] + (10 if empty else 0):
+                fresh_session(); u = P.rnd.choices(names, w)[0]; n0 = P.steps
+                try: getattr(P, u)()
+                except Disagree: pass
+                q.call('C_CloseSession', s=P.S); units += 1; part.count('units'); part.count('unit:' + u)
+                if P.steps == n0 and units > 400: break
         part.count('programs'); part.count('steps', P.steps)
-        if len(part.samples) < 2: part.samples.append({'seed': seed, 'steps': P.steps, 'history_head': [list(map(str, h)) for h in P.log[:14]]})
+        if len(part.samples) < 2 and (empty or not part.samples): part.samples.append({'seed': seed, 'shape': 'empty-start' if empty else 'sweep %s' % (sweep,) if sweep else 'ordinary', 'steps': P.steps, 'history_head': [list(map(str, h)) for h in P.log[:16]]})
         for x in q.x:
             for cat, loc in x.ubsan_reports()[:10]: part.observe('side:ubsan ' + loc, cat[:100])
     except Died as e:
@@ -540,7 +755,8 @@ def run_program(env, seed, part):
 
 def worker(job):
     part = Part(); env = dict(job['env']); env['ck'] = CK(env['hdr']); env['scratch'] = os.path.join(env['scratch'], 'w%d' % os.getpid()); os.makedirs(env['scratch'], exist_ok=True)
-    for seed in job['seeds']: run_program(env, seed, part)
+    for seed in job.get('seeds', []): run_program(env, seed, part)
+    for sw in job.get('sweeps', []): run_program(env, job['sweep_seed'], part, sweep=sw)
     return part
 
 def run(ctx):
@@ -552,16 +768,21 @@ def run(ctx):
     if os.environ.get('C20_SCALE'): nprog = max(4, int(nprog * float(os.environ['C20_SCALE'])))
     env = dict(paths=ctx.paths, hdr=ctx.paths['asan']['hdr'], scratch=ctx.scratch, ncalls=ncalls, ck=ctx.ck); golden = []; infos = []
     for i in range(4): g = ctx.dir('golden%d' % i); infos.append(build_golden(env, i, g)); golden.append(g)
+    golden_empty = []
+    for i in range(4): g = ctx.dir('golden-empty%d' % i); build_golden(env, i, g, empty=True); golden_empty.append(g)
     common = set(infos[0]); 
     for inf in infos[1:]: common &= set(inf)
     for m in sorted(set().union(*infos) - common): ctx.observe('mechanism not advertised by all four configurations (excluded)', m)
     for m in sorted(common):
         if len({inf[m] for inf in infos}) > 1: ctx.observe('C_GetMechanismInfo differs (key sizes restricted to the intersection)', {m: [inf[m] for inf in infos]})
     common -= {m for m in common if m.startswith('CKM_DES_')}     # single DES: the system OpenSSL 3 has no legacy provider, an artefact of this machine
-    env.update(golden=golden, mechs=sorted(common)); del env['ck']
+    env.update(golden=golden, golden_empty=golden_empty, mechs=sorted(common))
+    ncells = len(Prog(env, 0, Part()).sweep_cells()); del env['ck']
     seeds = [ctx.seed * 1000003 + i for i in range(nprog)]
     if ctx.replay: seeds = [json.load(open(ctx.replay))['witness']['seed']]
     jobs = [dict(env=env, seeds=seeds[i:i + 3]) for i in range(0, len(seeds), 3)]
+    if not ctx.replay: jobs += [dict(env=env, sweep_seed=ctx.seed, sweeps=[(lo, min(lo + 12, ncells))]) for lo in range(0, ncells, 12)]
+    random.Random(ctx.seed).shuffle(jobs)
     for part in pmap(worker, jobs, ctx.nproc): ctx.merge(part)
     d = {k[5:]: v for k, v in ctx.extra.items() if k.startswith('unit:')}
     for k in list(ctx.extra):
